@@ -105,6 +105,17 @@ var c10Offences = []c10Offence{
 	{"hpack-size-update-over-limit", []uint32{ecCompression}, func(h *peer.H, open, next uint32) []byte {
 		return rawframe.Append(nil, rawframe.Headers, rawframe.FlagEndHeaders|rawframe.FlagEndStream, next, []byte{0x3f, 0xe2, 0x7f, 0x82, 0x87, 0x84})
 	}},
+	{"hpack-garbage-on-reset-stream", []uint32{ecCompression}, func(h *peer.H, open, next uint32) []byte {
+		// a request the server resets (upper-case field name), then trailers on the same
+		// stream, in flight behind the reset, whose block does not decode
+		b := rawframe.Append(nil, rawframe.Headers, rawframe.FlagEndHeaders, next, []byte{0x83, 0x87, 0x84, 0x00, 0x03, 'X', '-', 'U', 0x01, 'v'})
+		return rawframe.Append(b, rawframe.Headers, rawframe.FlagEndHeaders|rawframe.FlagEndStream, next, []byte{0xfe})
+	}},
+	{"hpack-garbage-in-continuation-of-reset-stream", []uint32{ecCompression}, func(h *peer.H, open, next uint32) []byte {
+		b := rawframe.Append(nil, rawframe.Headers, rawframe.FlagEndHeaders, next, []byte{0x83, 0x87, 0x84, 0x00, 0x0a, 'c', 'o', 'n', 'n', 'e', 'c', 't', 'i', 'o', 'n', 0x01, 'v'})
+		b = rawframe.Append(b, rawframe.Headers, rawframe.FlagEndStream, next, []byte{0x82})
+		return rawframe.Append(b, rawframe.Continuation, rawframe.FlagEndHeaders, next, []byte{0xff, 0xff, 0xff, 0xff, 0x7f})
+	}},
 	{"hpack-truncated-block", []uint32{ecCompression}, func(h *peer.H, open, next uint32) []byte {
 		return rawframe.Append(nil, rawframe.Headers, rawframe.FlagEndHeaders|rawframe.FlagEndStream, next, []byte{0x82, 0x87, 0x84, 0x00, 0x05, 'a'})
 	}},
@@ -229,6 +240,18 @@ func c10Run(c c10Case) Outcome {
 				}
 			}
 		}
+		if evidence == "" && (c.Trail == "silent" || c.Trail == "valid" || c.Trail == "flood") {
+			// the peer (this harness) has nothing more to send and keeps reading: if every loop of
+			// the connection is idle now, nothing will ever make ServeConn return
+			if ok, _ := h.Quiesce(); ok {
+				select {
+				case <-h.ServeDone:
+				default:
+					gas := peer.GoAways(h.EventsCopy())
+					evidence = fmt.Sprintf("every loop of the connection is idle (hook counters quiescent), the peer is silent but still connected, GOAWAYs sent so far: %d; nothing is left that could end the connection", len(gas))
+				}
+			}
+		}
 		if evidence != "" {
 			return fail("serveconn-wedged", "after offence %q (trailing behaviour %q) and with every handler released, ServeConn has not returned after 6s; %s", c.Off, c.Trail, evidence)
 		}
@@ -323,7 +346,7 @@ func c10Gen(t *rapid.T) c10Case {
 
 func TestC10(t *testing.T) {
 	s := newSuite(t, "C10",
-		"well-formed traffic (0..4 requests answered, 0..3 with parked handlers, 0..3 written right behind) around one connection-scoped offence from a catalogue of 24 (frame over MAX_FRAME_SIZE, PING/RST_STREAM/WINDOW_UPDATE/SETTINGS of impossible size, SETTINGS ACK with payload / on a stream / invalid values, WINDOW_UPDATE 0 or overflow on the connection, DATA/HEADERS on stream 0, stray CONTINUATION, frame inside a header block, even or lower stream id, PUSH_PROMISE, padding >= payload, four kinds of undecodable header block) or an idle-timeout shutdown racing new requests; then the peer stays silent / keeps sending valid frames / floods 300+ frames / stops reading (bounded queue) / closes. Oracle: every GOAWAY's last-stream-id >= the highest stream whose request reached a handler at any time; its code is one RFC 7540 allows for the offence (bare close accepted); nothing written after the offending frame is dispatched; with all handlers released ServeConn returns (6 s bound; expiry is a violation only with a goroutine dump showing a permanently blocked library goroutine, otherwise inconclusive) and no goroutine of the connection stays behind. Non-trivial = >=1 request answered before the offence and traffic after it; distinct by case hash.")
+		"well-formed traffic (0..4 requests answered, 0..3 with parked handlers, 0..3 written right behind) around one connection-scoped offence from a catalogue of 26 (frame over MAX_FRAME_SIZE, PING/RST_STREAM/WINDOW_UPDATE/SETTINGS of impossible size, SETTINGS ACK with payload / on a stream / invalid values, WINDOW_UPDATE 0 or overflow on the connection, DATA/HEADERS on stream 0, stray CONTINUATION, frame inside a header block, even or lower stream id, PUSH_PROMISE, padding >= payload, four kinds of undecodable header block, and undecodable trailers / CONTINUATION in flight for a stream the server has just reset) or an idle-timeout shutdown racing new requests; then the peer stays silent / keeps sending valid frames / floods 300+ frames / stops reading (bounded queue) / closes. Oracle: every GOAWAY's last-stream-id >= the highest stream whose request reached a handler at any time; its code is one RFC 7540 allows for the offence (bare close accepted); nothing written after the offending frame is dispatched; with all handlers released ServeConn returns (6 s bound; expiry is a violation only with a goroutine dump showing a permanently blocked library goroutine, otherwise inconclusive) and no goroutine of the connection stays behind. Non-trivial = >=1 request answered before the offence and traffic after it; distinct by case hash.")
 	defer s.finish()
 	runLane(s, Lane[c10Case]{Name: "offences", Journal: true, Quick: 1200, Thor: 40000, Gen: c10Gen, Run: c10Run})
 }
